@@ -76,6 +76,9 @@ pub fn auth_probe(s: &Sim) -> StateObs {
         ("treasury", cfg.protocol_fee_config.treasury_address.as_ref().map(|a| a.to_string()).unwrap_or_else(|| p20("tre"))),
         ("oracle", oracle_addr()),
         ("validator_like", p20("val-like")),
+        // accounts that exist only in the chain's metadata about the contract
+        ("chain_migration_admin", mwsim::kv::chain_migration_admin()),
+        ("chain_creator", mwsim::kv::chain_creator()),
     ];
     let monitors: Vec<String> = s.m.monitors.clone();
     // every configured monitor is a principal (a team of twelve as well as the usual two)
